@@ -190,6 +190,9 @@ def pair_case(draw):
     K = len(scene["centers"])
     kind = draw(st.sampled_from(["displace", "displace", "permute", "fewer", "none"]))
     case = {"scene": scene, "theta": theta, "kind": kind, "api": draw(st.sampled_from(["cross", "auto"]))}
+    # which argument of crosscorrelate the (possibly inconsistent) second catalog is: every catalog
+    # that is handed over has to pass the guard, whatever else is given
+    case["role"] = draw(st.sampled_from(["unknown", "ref_rand", "ref_rand+unk_rand", "unk_rand"]))
     if kind == "displace":
         case["patch"] = draw(st.integers(0, K - 1))
         case["factor"] = draw(st.sampled_from([0.1, 2.0, 2.0, 10.0, 10.0]))
@@ -211,7 +214,7 @@ def run_pair(case):
     sa, sb = pl.Sample(A, cxyz), pl.Sample(B, cxyz)
     if min(sa.margin.min(), sb.margin.min()) < 1e-12:
         return Result.discard("equidistant-object")
-    ck = Checker(case["kind"] != "none", classes=[f"kind:{case['kind']}", f"api:{case['api']}"])
+    ck = Checker(case["kind"] != "none", classes=[f"kind:{case['kind']}", f"api:{case['api']}"] + ([f"role:{case.get('role', 'unknown')}"] if case["api"] == "cross" else []))
     cfgd = {"edges": [0.1, 0.5, 1.0], "closed": "right", "zmin": None, "zmax": None, "num_bins": None, "method": "custom", "rmin": [case["theta"] * 0.1], "rmax": [case["theta"]], "unit": "rad", "cosmology": "Planck15", "rweight": None, "resolution": None}
     with Scratch() as tmp:
         try:
@@ -242,7 +245,17 @@ def run_pair(case):
 
         def run():
             if case["api"] == "cross":
-                return yaw.crosscorrelate(cfg, cat_a, cat_b, unk_rand=cat_b, max_workers=1)
+                role = case.get("role", "unknown")
+                if role == "unknown":
+                    return yaw.crosscorrelate(cfg, cat_a, cat_b, unk_rand=cat_b, max_workers=1)
+                # the other roles are filled by further (consistent) catalogs of A's objects
+                a2 = pl.make_catalog(tmp / "a2", A, centers)
+                if role == "ref_rand":
+                    return yaw.crosscorrelate(cfg, cat_a, a2, ref_rand=cat_b, max_workers=1)
+                if role == "unk_rand":
+                    return yaw.crosscorrelate(cfg, cat_a, a2, unk_rand=cat_b, max_workers=1)
+                a3 = pl.make_catalog(tmp / "a3", A, centers)
+                return yaw.crosscorrelate(cfg, cat_a, a2, ref_rand=cat_b, unk_rand=a3, max_workers=1)
             return yaw.autocorrelate(cfg, cat_a, cat_b, count_rr=False, max_workers=1)
 
         must_raise = False
